@@ -121,6 +121,44 @@ Lemma cycle_loop_raise c s limit stop s1 kbd :
   cycle_loop tk (S c) fuel s limit stop = emit (close_own tk fuel s1 0%N) (if kbd then DoReturn else DoRaise) 0%N.
 Proof. intro E. cbn [cycle_loop]. rewrite E. destruct kbd; reflexivity. Qed.
 
+(* nothing else can happen: a run of the cycle loop either exhausts a budget, or
+   stops by the rule above, or is ended by a pass that raises *)
+Theorem cycle_loop_cases limit stop : forall cycles s,
+  oof (cycle_loop tk cycles fuel s limit stop) = true \/
+  (exists n, (n < cycles)%nat /\
+     (forall j, (j <= n)%nat -> cycle_ok (after s j) = true) /\
+     (forall j, (j < n)%nat -> stops limit stop (after s (S j)) = false) /\
+     stops limit stop (after s (S n)) = true /\
+     cycle_loop tk cycles fuel s limit stop = finish (after s (S n))) \/
+  (exists n s1 kbd, (n < cycles)%nat /\
+     (forall j, (j < n)%nat -> cycle_ok (after s j) = true /\ stops limit stop (after s (S j)) = false) /\
+     recur_pass tk fuel (after s n) 0%N = (s1, GRaise kbd) /\
+     cycle_loop tk cycles fuel s limit stop =
+       emit (close_own tk fuel s1 0%N) (if kbd then DoReturn else DoRaise) 0%N).
+Proof.
+  induction cycles as [|c IH]; intro s; [left; reflexivity|].
+  destruct (recur_pass tk fuel s 0%N) as [s1 r] eqn:E.
+  assert (Okc : pass_ok r = true -> cycle_ok s = true) by (unfold cycle_ok; rewrite E; auto).
+  destruct (pass_ok r) eqn:Ok.
+  - specialize (Okc eq_refl). destruct (stops limit stop (cycle_end s)) eqn:St.
+    + right. left. exists 0%nat. split; [lia|]. split; [intros j Hj; replace j with 0%nat by lia; exact Okc|].
+      split; [intros j Hj; lia|]. split; [exact St|]. now apply cycle_loop_last.
+    + rewrite (cycle_loop_step c s limit stop Okc St).
+      destruct (IH (cycle_end s)) as [O|[(n & Hn & A & B & C & Eq)|(n & s1' & kbd & Hn & A & B & Eq)]].
+      * left. exact O.
+      * right. left. exists (S n). split; [lia|]. split.
+        { intros j Hj. destruct j as [|j]; [exact Okc|]. apply A. lia. }
+        split. { intros j Hj. destruct j as [|j]; [exact St|]. apply B. lia. }
+        split; [exact C|exact Eq].
+      * right. right. exists (S n), s1', kbd. split; [lia|]. split.
+        { intros j Hj. destruct j as [|j]; [split; [exact Okc|exact St]|]. apply A. lia. }
+        split; [exact B|exact Eq].
+  - destruct r as [t| |kbd|]; try discriminate.
+    + right. right. exists 0%nat, s1, kbd. split; [lia|]. split; [intros j Hj; lia|]. split; [exact E|].
+      now apply cycle_loop_raise.
+    + left. cbn [cycle_loop]. rewrite E. exact (recur_pass_fuel tk fuel s 0%N s1 E).
+Qed.
+
 End Stop.
 
 Section StopRun.
